@@ -230,6 +230,23 @@ pub fn exec_t<T: LabelType + 'static>(prop: &str, case: &DynCase, mk: &dyn Fn(L)
                 if hub.borrow().calls == calls_before && !case.solver.is_dummy() {
                     r.count("answers_served_from_cache", 1);
                 }
+                if prop == "C18" && case.solver == DynKind::Preferred {
+                    // bounded liveness of the dynamic preferred search: one search over the whole current framework
+                    let used = hub.borrow().calls - calls_before;
+                    let (af, _, _) = store.to_ref();
+                    let bound = af.all_co().len() as u64 + af.all_pr().len() as u64 + 1;
+                    r.count("dynamic_preferred_queries_bounded", 1);
+                    if used > bound {
+                        r.violations.push(site(Violation::new(
+                            "C18",
+                            "call-bound",
+                            format!("step {}: DynamicPreferredSemanticsSolver made {} SAT calls for one query; bound |CO|+|PR|+1 = {}", k + 1, used, bound),
+                        ))
+                        .at("sem", "PR")
+                        .at("kind", "DS"));
+                        break;
+                    }
+                }
                 inter.u64(match &ans {
                     Answer::Status(true, _) => 1,
                     Answer::Status(false, _) => 2,
